@@ -40,6 +40,8 @@ def io_state(rng, ninput=None, noutput=None):
         bool=[rng.random() < 0.5 for _ in range(d(2))],
         bvec=[[rng.random() < 0.5 for _ in range(rng.randrange(0, 4))] for _ in range(d(4))],
         ivec=[[rng.randrange(0, 9) for _ in range(rng.randrange(0, 3))] for _ in range(d(4))],
+        # flags and names an earlier NAME.QUOTE / NAME.SEND left behind: the queues do not read them
+        name=[rng.choice(["A", "msg", "x y"]) for _ in range(d(2))], send=rng.random() < 0.25, quote=rng.random() < 0.15,
     )
 
 
